@@ -118,6 +118,10 @@ pub struct ThreadSpec {
     /// comm file cannot be read as text: None | "enoent" | "eacces" | "eio"
     #[serde(default)]
     pub comm_fault: Option<String>,
+    /// the thread sits in an uninterruptible wait (state D) until this simulated time: it neither
+    /// runs nor takes signals (and so does not stop) before
+    #[serde(default)]
+    pub blocked_until_ns: u64,
 }
 
 #[derive(Serialize, Deserialize, Clone, Debug, PartialEq)]
@@ -275,6 +279,8 @@ pub enum EventKind {
     UnmapNamed { name: B },
     /// another process attaches to (or detaches from) this thread with ptrace
     ForeignTracer { tid: i32, on: bool },
+    /// the target maps a new anonymous read-write region
+    MapAnon { start: u64, len: u64, seed: u64 },
 }
 
 #[derive(Serialize, Deserialize, Clone, Debug, PartialEq)]
@@ -410,6 +416,10 @@ pub enum DestFx {
 pub struct DestPlan {
     pub start: u64,
     pub pre_len: u64,
+    /// the recorded window of the destination begins at this absolute offset (a destination
+    /// positioned beyond 4 GiB is modelled sparsely); pre-existing content starts here
+    #[serde(default)]
+    pub origin: u64,
     /// (op index among all destination calls of this dump, effect)
     pub fx: Vec<(u32, DestFx)>,
 }
